@@ -127,18 +127,22 @@ func runHTTP(s Script) (res vt.Result) {
 		}
 		h.getEx = exs[0]
 		evs := memhttp.ParseSSE(h.getEx.Written())
-		if len(evs) != 1 || evs[0].Name != "endpoint" {
-			res.Failf("harness: SSE GET did not start with an endpoint event: %q", h.getEx.Written())
+		// the endpoint event; other events the server may send first (priming, retry hints) are skipped
+		epi := slices.IndexFunc(evs, func(ev memhttp.SSEvent) bool { return ev.Name == "endpoint" })
+		if epi < 0 {
+			res.Failf("harness: SSE GET carries no endpoint event: %q", h.getEx.Written())
 			return
 		}
-		h.endpoint = "http://mcp.example" + evs[0].Data
-		if strings.HasPrefix(evs[0].Data, "http") {
-			h.endpoint = evs[0].Data
-		} else if !strings.HasPrefix(evs[0].Data, "/") {
-			h.endpoint = "http://mcp.example/sse" + evs[0].Data
+		ep := evs[epi].Data
+		h.endpoint = "http://mcp.example" + ep
+		if strings.HasPrefix(ep, "http") {
+			h.endpoint = ep
+		} else if !strings.HasPrefix(ep, "/") {
+			h.endpoint = "http://mcp.example/sse" + ep
 		}
-		h.getSeen = 1
-		if ex := h.post(initLine); ex == nil || ex.Status() != 202 {
+		h.getSeen = len(evs)
+		// the 2024-11-05 HTTP+SSE transport does not fix the status of an accepted POST: any 2xx will do
+		if ex := h.post(initLine); ex == nil || ex.Status()/100 != 2 {
 			res.Failf("harness: SSE initialize POST failed")
 			return
 		}
@@ -180,13 +184,7 @@ func runHTTP(s Script) (res vt.Result) {
 			if !m.isResp {
 				continue
 			}
-			var hit *pending
-			for _, p := range scope {
-				if !p.done && canonical(p.tok) == m.tok {
-					hit = p
-					break
-				}
-			}
+			hit := attribute(scope, m.tok, m.code)
 			if hit == nil {
 				res.Failf("step %d: %s carries a response with id %s that answers no outstanding request of that exchange (wrong id echoed, second answer, or wrong stream): %s", step, where, m.tok, m.raw)
 				return false
@@ -195,7 +193,7 @@ func runHTTP(s Script) (res vt.Result) {
 			if hit.exp.class != "inflight_id_reuse" {
 				delete(inflight, canonical(hit.tok))
 			}
-			if hit.exp.codes != nil && (m.code == nil || !slices.Contains(hit.exp.codes, *m.code)) {
+			if !hit.exp.answerOK(m.code) {
 				res.Failf("step %d: %s [%s] answered %s, want error code %v", step, hit.env.wire(), hit.exp.class, m.raw, hit.exp.codes)
 				return false
 			}
@@ -277,7 +275,10 @@ func runHTTP(s Script) (res vt.Result) {
 		for _, pr := range posts {
 			for _, p := range pr.pend {
 				if p.exp.response && !p.done && !p.exp.parks {
-					if parkedPosts[pr] && (s.Transport == "stream-json") {
+					// JSON mode answers when the POST completes; a batch may be answered as a whole once all its
+					// members are (JSON-RPC: "after all of the batch Request objects have been processed"), on
+					// an event stream as well as on ndjson. No time is fixed by the property.
+					if parkedPosts[pr] && (s.Transport == "stream-json" || pr.isBatch) {
 						continue
 					}
 					res.Failf("step %d: request %s [%s] has received no response (HTTP status %d)", step, p.env.wire(), p.exp.class, pr.ex.Status())
@@ -325,7 +326,7 @@ func runHTTP(s Script) (res vt.Result) {
 						e.ID = freshID()
 						tok = e.ID
 					} else {
-						ex = expect{response: true, codes: []int{-32600}, class: "inflight_id_reuse"}
+						ex = expect{response: true, codes: []int{-32600}, anyError: true, class: "inflight_id_reuse"}
 						pr.malformed = true
 						nt = true
 					}
